@@ -37,7 +37,8 @@ def gen(ctx):
         R, C = rng.randint(1, 9), rng.randint(1, 9)
         p = rng.choice([0.2, 0.35, 0.5])
         g = [[int(rng.random() < p) for _ in range(C)] for _ in range(R)]
-        yield dict(kind="life", hist=[g], T=rng.randint(1, 5), memo=rng.choice(["False", "True", "recursive_lit"]))
+        yield dict(kind="life", hist=[g], T=rng.randint(1, 5), memo=rng.choice(["False", "True", "recursive_lit"]),
+                   dtype=rng.choice(["int32", "int32", "uint8", "int8", "int64", "bool", "float64", "uint16"]))
     for _ in range(ctx.n(60, 600)):
         # a warm-up call with the SAME rule function under other settings, then Life proper (one process)
         R, C = rng.randint(3, 8), rng.randint(3, 8)
@@ -77,7 +78,7 @@ def line(c):
 
 def run(c):
     import cellpylib as cpl
-    ca = np.array(_hist(c), dtype=np.int32)
+    ca = np.array(_hist(c), dtype=c.get("dtype", "int32"))
     w = c.get("warm")
     if w:
         wca = ca[-1:].copy() if w["same_grid"] else np.roll(ca[-1:], 1, axis=2).copy()
@@ -91,9 +92,9 @@ def impl(c):
     import cellpylib as cpl
     try:
         if c["kind"] == "gol":
-            v = cpl.game_of_life_rule(np.array(c["n"]), (1, 1), 1)
+            v = cpl.game_of_life_rule(np.array(c["n"], dtype=["int64", "uint8", "int8", "bool", "float64"][sum(map(sum, c["n"])) % 5]), (1, 1), 1)
             return "ok None" if v is None else "ok %d" % int(v)
-        return "ok grids=" + fmt.hist(run(c).tolist())
+        return "ok grids=" + fmt.hist(np.asarray(run(c)).astype(np.int64).tolist())
     except Exception as e:  # noqa
         return fmt.err(e)
 
@@ -111,13 +112,18 @@ def oracle(c):
         centre = n[1][1]
         nbrs = sum(x for r in n for x in r) - centre
         want = 1 if (centre == 0 and nbrs == 3) or (centre == 1 and nbrs in (2, 3)) else 0
-        got = cpl.game_of_life_rule(np.array(n), (1, 1), 1)
+        for dt in ("int64", "uint8", "int8", "bool", "int32", "float64"):
+            got = cpl.game_of_life_rule(np.array(n, dtype=dt), (1, 1), 1)
+            if got is None or got != want:
+                return "game_of_life_rule(%s as %s) = %s, B3/S23 says %s" % (n, dt, got, want)
         return None if got == want and got is not None else "game_of_life_rule(%s) = %s, B3/S23 says %s" % (n, got, want)
     try:
         res = run(c)
     except Exception as e:
         return "raised %s" % type(e).__name__
-    grids = res.tolist()
+    if res.dtype != np.dtype(c.get("dtype", "int32")):
+        return "result dtype %s differs from the automaton's %s" % (res.dtype, c.get("dtype", "int32"))
+    grids = np.asarray(res).astype(np.int64).tolist()
     for t in range(1, len(grids)):
         if not np.array_equal(life_step(grids[t - 1]), np.array(grids[t])):
             return "step %d is not the Life update on the torus" % t
